@@ -318,6 +318,12 @@ Definition create_stage (stage : nat) (p : spln) : CM :=
 
 Definition create : spln -> CM := create_stage 2.
 
+(* Create while ReadItem answers an error that is not a 404 (throttling, an unreachable container):
+   the Exists pre-check returns that error and Create returns it at once - it fails closed, before
+   planToItems and before any batch. (Fault "stage 3" of the correspondence check: readItemErr.) *)
+Definition create_readerr (p : spln) : CM :=
+  fun c => if uid_nil (sp_id p) then (c, false) else (c, false).
+
 (* ================= updater_*.go: PatchItem(key(planID), id, ops) ================= *)
 Definition patchItem (pid id : uid) (f : row -> row) : M :=
   fun d => match readItem pid id d with
